@@ -250,7 +250,7 @@ package dkg
 //@   modifies nothing
 
 //@ func (*Process).Command(d, ctx, command) (res, err)
-//@   props C08
+//@   props C08 C14
 //@   flags lockcheck
 //@   call StartNetwork#0: assert [C08:command-initial-applies-to-fallback-state] fallbackState(d, command.Metadata.BeaconID, arg4) && nSaves(d.store) == old(nSaves(d.store))
 //@   call StartProposal#0: assert [C08:command-reshare-applies-to-fallback-state] fallbackState(d, command.Metadata.BeaconID, arg4) && nSaves(d.store) == old(nSaves(d.store))
@@ -288,10 +288,14 @@ package dkg
 //@   trusted starts the execution goroutine; lock behaviour checked on its own
 //@   modifies everything
 
+// pbvalid: the top-level request of a handler may be anything protobuf can decode: nested message pointers and
+// oneof wrappers may be nil. Node state reachable from the receiver is well-formed (non-nil logger, maps, store).
 //@ func (*Process).Packet(d, ctx, packet) (res, err)
 //@   props C14
-//@   flags lockcheck
+//@   flags lockcheck nopanic recovered
+//@   requires [C14] d.log != nil && d.store != nil
 
 //@ func (*Process).BroadcastDKG(d, ctx, packet) (res, err)
 //@   props C14
-//@   flags lockcheck
+//@   flags lockcheck nopanic recovered
+//@   requires [C14] d.log != nil
